@@ -179,6 +179,62 @@ FPLemma(c, e) ==
   /\ (QEq(QMul(P, QMul(T, QInv(P))), T) <=> QEq(QMul(P, T), QMul(T, P)))
 FPNonCommuting(c) == ~QEq(QMul(FPParent(c), FPTarget(c)), QMul(FPTarget(c), FPParent(c)))
 
+\* ------------------------------------------------------------------ on (vector | region | Object), modifying form
+\* "If position has already been specified, its value is modified by projecting it onto the region (or the
+\*  onSurface of the object): we find the closest point in the region along onDirection (or its negation)
+\*  and place the BASE of the object at that point", "always offset by half of contactTolerance"; base =
+\*  position + baseOffset (bottom centre).  If the region has a preferred orientation the parent orientation
+\*  is that orientation there (a mesh SURFACE: z axis = outward face normal, yaw unspecified here), and
+\*  the contact offset is applied in that frame; a mesh VOLUME has none (global frame).  Default
+\*  onDirection: straight up for volumes, the mean face normal for surfaces (only used for `on Object`,
+\*  whose onSurface is its top face).
+\* rk = "hollow": boundary surface of one lattice box, explicit onDirection (+-axis);
+\*      "stack" : volume made of the lattice boxes c.boxes (e.g. two stacked boxes), default or explicit direction;
+\*      "objtop": top surface of an Object with a cube-group orientation, default direction;
+\*      "vec"   : specifying form `on V` (base at V).
+OnAxis(c) == IF c.dirk = "default" THEN 3 ELSE (CHOOSE k \in 1..3 : c.dir[k] # 0)
+OnLift(c) == c.ndim[3] \div 2 + c.ct \div 2
+InCross(P, b, ax) == \A j \in (1..3) \ {ax} : b.lo[j] < P[j] /\ P[j] < b.hi[j]
+\* faces of the boxes met by the ray from P along sg * e_ax, as <<distance, face coordinate, outward sign>>
+RayFaces(c, ax, sg) ==
+  UNION {IF InCross(c.P, c.boxes[n], ax)
+         THEN {<<AbsI(f[1] - c.P[ax]), f[1], f[2]>> : f \in {x \in {<<c.boxes[n].lo[ax], -1>>, <<c.boxes[n].hi[ax], 1>>} : sg * (x[1] - c.P[ax]) > 0}}
+         ELSE {} : n \in 1..Len(c.boxes)}
+FirstHit(S) == CHOOSE h \in S : \A g \in S : h[1] <= g[1]
+OnCandidates(c) == LET ax == OnAxis(c) IN
+                   {FirstHit(RayFaces(c, ax, sg)) : sg \in {k \in {-1, 1} : RayFaces(c, ax, k) # {}}}
+InsideVolume(c) == c.rk = "stack" /\ \E n \in 1..Len(c.boxes) : InBoxOpen(c.P, c.boxes[n])
+OnBoxes(c) ==
+  LET ax == OnAxis(c)
+      h == FirstHit(OnCandidates(c))                       \* the NEAREST of the (up to) two first hits
+      hit == IF InsideVolume(c) THEN c.P ELSE [c.P EXCEPT ![ax] = h[2]]
+      up == IF c.rk = "hollow" THEN VScale(h[3], <<IF ax = 1 THEN 1 ELSE 0, IF ax = 2 THEN 1 ELSE 0, IF ax = 3 THEN 1 ELSE 0>>) ELSE Ez
+  IN [pos |-> [p |-> VAdd(hit, VScale(OnLift(c), up)), ps |-> 4], up |-> up, ups |-> 1]
+\* the onSurface of an Object is its top surface: the faces of its occupied space whose normal points
+\* (globally) up -- for a box with a cube-group orientation, the top face of its world bounding box
+OnObjBox(c) == BoxOf(c.ref.p, Rot(c.ref).m, <<c.rdim[1] \div 2, c.rdim[2] \div 2, c.rdim[3] \div 2>>)
+OnObjTop(c) ==
+  LET hit == <<c.P[1], c.P[2], OnObjBox(c).hi[3]>>
+  IN [pos |-> [p |-> VAdd(hit, <<0, 0, OnLift(c)>>), ps |-> 4], up |-> Ez, ups |-> 1]
+OnVec(c) == [pos |-> [p |-> VAdd(c.P, <<0, 0, OnLift(c)>>), ps |-> 4], up |-> Ez, ups |-> 1]
+OnResult(c) == CASE c.rk \in {"hollow", "stack"} -> OnBoxes(c) [] c.rk = "objtop" -> OnObjTop(c) [] c.rk = "vec" -> OnVec(c)
+OnSpec(c) == Plain(OnResult(c).pos, IF c.rk \in {"stack", "vec"} THEN Own(c.own) ELSE NoQ)
+OnLemma(c) ==
+  /\ (c.rk \in {"hollow", "stack"} =>
+        /\ \A n \in 1..Len(c.boxes), k \in 1..3 : c.P[k] # c.boxes[n].lo[k] /\ c.P[k] # c.boxes[n].hi[k]   \* off every face plane
+        /\ (~InsideVolume(c) => OnCandidates(c) # {})
+        /\ \A a \in OnCandidates(c), b \in OnCandidates(c) : a # b => a[1] # b[1])                            \* no tie
+  /\ (c.rk = "objtop" =>
+        /\ Rot(c.ref).d = 1 /\ c.P[3] > OnObjBox(c).hi[3]
+        /\ \A k \in 1..2 : OnObjBox(c).lo[k] < c.P[k] /\ c.P[k] < OnObjBox(c).hi[k])
+\* does the nearest hit lie AGAINST the given direction although the ray along it hits too? (the cases
+\* that tell "nearest of the two hits" from "the hit along +onDirection")
+OnDiscriminating(c) ==
+  c.rk \in {"hollow", "stack"} /\ ~InsideVolume(c) /\
+  LET ax == OnAxis(c) sg == IF c.dirk = "default" THEN 1 ELSE c.dir[ax] IN
+  RayFaces(c, ax, sg) # {} /\ RayFaces(c, ax, -sg) # {} /\
+  FirstHit(RayFaces(c, ax, -sg))[1] < FirstHit(RayFaces(c, ax, sg))[1]
+
 \* ------------------------------------------------------------------ (front | back | ...) of Object
 SideSigns(sub) ==
   CASE sub = "front" -> <<0, 1, 0>> [] sub = "back" -> <<0, -1, 0>> [] sub = "left" -> <<-1, 0, 0>>
@@ -248,6 +304,7 @@ Expected(c) ==
     [] c.kind = "apphead" -> AppHeading(c)
     [] c.kind = "ori" -> OriAlg(c)
     [] c.kind = "facep" -> FacingUnderParent(c)
+    [] c.kind = "on" -> OnSpec(c)
 
 \* ------------------------------------------------------------------ machine: one state per case
 Init == pc = "chunk" /\ chunk \in 1..NChunks /\ i = 0 /\ exp = <<>>
@@ -277,8 +334,12 @@ ConstructLemmas == IsCase =>
    /\ (C.kind = "side" => SideLemma(C, exp))
    /\ (C.kind = "ori" => OriLemma(C))
    /\ (C.kind = "facep" => FPLemma(C, exp))
+   /\ (C.kind = "on" => OnLemma(C))
    /\ (C.kind \in {"angle", "altitude", "apphead"} => ScalarLemma(C))
 \* the deviation differs from the ideal only where it is triggered, and then really differs
 DeviationScoped == IsCase => (exp.dev # "none" => ~QEq([m |-> exp.r, d |-> exp.rd], [m |-> exp.ir, d |-> exp.ird]))
-Emit == IsCase => PrintT(ToJson([id |-> C.id, e |-> exp, nc |-> IF C.kind = "facep" THEN FPNonCommuting(C) ELSE FALSE]))
+Emit == IsCase => PrintT(ToJson([id |-> C.id, e |-> exp, nc |-> IF C.kind = "facep" THEN FPNonCommuting(C) ELSE FALSE,
+                                  up |-> IF C.kind = "on" /\ C.rk \in {"hollow", "objtop"} THEN OnResult(C).up ELSE <<>>,
+                                  ups |-> IF C.kind = "on" /\ C.rk \in {"hollow", "objtop"} THEN OnResult(C).ups ELSE 0,
+                                  disc |-> IF C.kind = "on" THEN OnDiscriminating(C) ELSE FALSE]))
 =============================================================================
